@@ -26,13 +26,18 @@ def _fail(*args: Any, **kwargs: Any) -> None:
     raise BzlFail(" ".join(str(a) for a in args))
 
 
+class _ScriptedTypeError(TypeError):
+    """what Bazel's Label() does with a non-string, on purpose (common.harness_fault leaves scripted errors alone)"""
+    verif_scripted = True
+
+
 class Label:
-    def __init__(self, text: str) -> None:
+    def __init__(self, text: str, *args: Any, **kwargs: Any) -> None:
         if isinstance(text, Label):
             self.repo, self.package, self.name = text.repo, text.package, text.name
             return
         if not isinstance(text, str):
-            raise TypeError("Label() wants a string")
+            raise _ScriptedTypeError("Label() wants a string")
         repo, sep, rest = text.partition("//")
         if not sep:
             raise ValueError("shim Label: only absolute labels are supported: %r" % (text,))
@@ -45,7 +50,7 @@ class Label:
         self.package = pkg
         self.name = name
 
-    def same_package_label(self, name: str) -> "Label":
+    def same_package_label(self, name: str, *args: Any, **kwargs: Any) -> "Label":
         out = Label.__new__(Label)
         out.repo, out.package, out.name = self.repo, self.package, name
         return out
@@ -69,16 +74,21 @@ class _Struct:
 
 class _Json:
     @staticmethod
-    def encode(x: Any) -> str:
+    def encode(x: Any, *args: Any, **kwargs: Any) -> str:
         return _json.dumps(x, separators=(",", ":"))
 
     @staticmethod
-    def encode_indent(x: Any, prefix: str = "", indent: str = "\t") -> str:
+    def encode_indent(x: Any, prefix: str = "", indent: str = "\t", *args: Any, **kwargs: Any) -> str:
         return _json.dumps(x, indent=indent)
 
     @staticmethod
-    def decode(x: str) -> Any:
-        return _json.loads(x)
+    def decode(x: str, *args: Any, **kwargs: Any) -> Any:     # (Starlark's also takes default=)
+        try:
+            return _json.loads(x)
+        except ValueError:
+            if "default" in kwargs:
+                return kwargs["default"]
+            raise
 
 
 class _Anything:
@@ -108,7 +118,7 @@ def _base_env() -> Dict[str, Any]:
         "fail": _fail, "Label": Label, "struct": _Struct, "json": _Json,
         "repository_rule": _Anything(), "module_extension": _Anything(), "tag_class": _Anything(),
         "attr": _Anything(), "depset": lambda *a, **k: list(a[0]) if a else [],
-        "maybe": lambda rule, **kw: None, "whl_repository": _Anything(), "select": _Anything(),
+        "maybe": lambda *a, **kw: None, "whl_repository": _Anything(), "select": _Anything(),
         "native": _Anything(), "provider": _Anything(), "rule": _Anything(),
     }
 
